@@ -311,6 +311,58 @@ theorem mergeDomainListE_eq_of_perm {e₁ e₂ : List Int → List Int} (h₁ : 
     omega
   · exact hp₁.trans hp₂.symm
 
+/-! ### `build_results`: the set of annotated genes is asked for membership only -/
+
+theorem outsideGo_congr (hasDomains : Int → Bool) : ∀ (sub a₁ a₂ acc : List Int), (∀ x, x ∈ a₁ ↔ x ∈ a₂) →
+    (outsideGo hasDomains a₁ acc sub).2 = (outsideGo hasDomains a₂ acc sub).2 ∧
+    (∀ x, x ∈ (outsideGo hasDomains a₁ acc sub).1 ↔ x ∈ (outsideGo hasDomains a₂ acc sub).1)
+  | [], a₁, a₂, acc, h => ⟨rfl, h⟩
+  | cds :: rest, a₁, a₂, acc, h => by
+    have hc : a₁.contains cds = a₂.contains cds := by
+      rw [Bool.eq_iff_iff]; simp only [List.contains_iff_mem]; exact h cds
+    simp only [outsideGo, hc]
+    split
+    · exact outsideGo_congr hasDomains rest a₁ a₂ acc h
+    · split
+      · apply outsideGo_congr hasDomains rest
+        intro x
+        simp only [List.mem_append, h x]
+      · exact outsideGo_congr hasDomains rest a₁ a₂ acc h
+
+theorem outsideResults_congr (hasDomains : Int → Bool) (subs : List (List Int)) {a₁ a₂ : List Int}
+    (h : ∀ x, x ∈ a₁ ↔ x ∈ a₂) : outsideResults hasDomains a₁ subs = outsideResults hasDomains a₂ subs := by
+  unfold outsideResults
+  suffices H : ∀ (subs : List (List Int)) (s₁ s₂ : List Int × List Int), s₁.2 = s₂.2 → (∀ x, x ∈ s₁.1 ↔ x ∈ s₂.1) →
+      (subs.foldl (fun st sub => outsideGo hasDomains st.1 st.2 sub) s₁).2 =
+      (subs.foldl (fun st sub => outsideGo hasDomains st.1 st.2 sub) s₂).2 from H subs _ _ rfl h
+  intro subs
+  induction subs with
+  | nil => intro s₁ s₂ e _; exact e
+  | cons sub rest ih =>
+    intro s₁ s₂ e hm
+    simp only [List.foldl_cons]
+    have := outsideGo_congr hasDomains sub s₁.1 s₂.1 s₁.2 hm
+    apply ih
+    · rw [this.1, e]
+    · rw [← e]; exact this.2
+
+/-! ### `--sideload-by-cds`: one subregion per known tag, in the order of the tags -/
+
+theorem byCdsArea_label (circular : Bool) (L pad : Int) (g : Int × Int) (n : Int) : (byCdsArea circular L pad g n).2.2 = n := by
+  unfold byCdsArea; split <;> rfl
+
+theorem subregionsByCds_labels (circular : Bool) (L pad : Int) (lookup : Int → Option (Int × Int)) (markers : List Int) :
+    (subregionsByCds circular L pad lookup markers).map (·.2.2) = markers.filter fun n => (lookup n).isSome := by
+  induction markers with
+  | nil => rfl
+  | cons n rest ih =>
+    unfold subregionsByCds at ih ⊢
+    cases hl : lookup n with
+    | none => simp only [List.filterMap_cons, hl, Option.map_none, List.filter_cons, Option.isSome_none]; exact ih
+    | some g =>
+      simp only [List.filterMap_cons, hl, Option.map_some, List.map_cons, byCdsArea_label, List.filter_cons,
+        Option.isSome_some, if_true, ih]
+
 /-! ### before D1705: the first maximum in the set's own iteration order -/
 
 theorem bestIn_ge : ∀ (b : FHit) (l : List FHit), ∀ o ∈ b :: l, o.sc ≤ (bestIn b l).sc
